@@ -335,3 +335,82 @@ def run_unit_scaler(c):
         v = float(get_gradient_projection_unit_scaling(x, g, l, u))
         ref = float(1.0 / np.max(np.abs(x - np.clip(x - g, l, u))))
     return dict(value=v, ref=ref)
+
+
+@register("sf_history")
+def run_sf_history(c):
+    """Replay a call history on the real ScalarFunction and audit it against fresh evaluations."""
+    from lbfgsb.scalar_function import prepare_scalar_function
+    from scipy.optimize._numdiff import approx_derivative
+    n = c["n"]
+    A = np.array([[2.0, 0.3, 0.1], [0.3, 1.5, 0.2], [0.1, 0.2, 1.0]])[:n, :n]
+    calls = dict(f=[], g=[])
+
+    def f(x, *a):
+        if np.iscomplexobj(x):
+            # complex-step stencil evaluation
+            calls["f"].append(np.array(x.real, float).copy() + np.inf * 0 if False else np.full(x.shape, np.nan))
+            return 0.5 * x.dot(A @ x) + np.sin(x).sum()
+        calls["f"].append(np.array(x, float).copy())
+        return float(0.5 * x.dot(A @ x) + np.sin(x).sum())
+
+    def g(x, *a):
+        calls["g"].append(np.array(x, float).copy())
+        return A @ x + np.cos(x)
+    lb, ub = np.full(n, -50.0), np.full(n, 50.0)
+    mode = c["jac"]
+    jac = g if mode == "callable" else (None if mode == "none" else mode)
+    sf = prepare_scalar_function(f, np.array(c["x0"], float), jac=jac, bounds=(lb, ub), epsilon=c.get("eps", 1e-8), finite_diff_rel_step=c.get("rel_step"))
+    bad = {}
+    scale = 1.0
+    last = None
+    requests = []
+    own_f = []     # (index into calls['f'], request index) for evaluations at requested points
+    for step, op in enumerate(c["ops"]):
+        kind = op["op"]
+        if kind == "mutate":
+            if last is not None:
+                last[:] = np.array(op["value"], float)
+            continue
+        if kind == "rescale":
+            scale = float(op["value"])
+            sf.scaling_factor = scale
+            continue
+        arr = last if (op.get("reuse") and last is not None) else np.array(op["point"], float)
+        pt = arr.copy()
+        requests.append(pt)
+        nf0 = len(calls["f"])
+        if kind == "fun":
+            vf, vg = sf.fun(arr), None
+        elif kind == "grad":
+            vf, vg = None, sf.grad(arr)
+        else:
+            vf, vg = sf.fun_and_grad(arr)
+        last = arr
+        for k in range(nf0, len(calls["f"])):
+            if np.array_equal(calls["f"][k], pt):
+                own_f.append((k, len(requests) - 1))
+        nfu, ngu = len(calls["f"]), len(calls["g"])
+        ref_f = float(0.5 * pt.dot(A @ pt) + np.sin(pt).sum())
+        if vf is not None and vf != ref_f * scale:
+            bad.setdefault("C15.value_is_fresh", "step %d (%s): returned %r, fresh evaluation times the factor gives %r" % (step, kind, vf, ref_f * scale))
+        if vg is not None:
+            if mode == "callable":
+                ref_g = (A @ pt + np.cos(pt)) * scale
+            else:
+                kw = dict(method="2-point" if mode == "none" else mode, bounds=(lb, ub))
+                if mode == "none":
+                    kw["abs_step"] = c.get("eps", 1e-8)
+                else:
+                    kw["rel_step"] = c.get("rel_step")
+                ref_g = approx_derivative(lambda x: 0.5 * x.dot(A @ x) + np.sin(x).sum(), pt, f0=ref_f, **kw) * scale
+            if not np.array_equal(np.asarray(vg, float), ref_g):
+                bad.setdefault("C15.gradient_is_fresh", "step %d (%s): returned %s, fresh gradient times the factor gives %s" % (step, kind, np.asarray(vg).tolist(), ref_g.tolist()))
+        if sf.nfev != nfu:
+            bad.setdefault("C15.nfev_counts_objective_calls", "step %d: nfev=%d, %d objective calls made" % (step, sf.nfev, nfu))
+        if mode == "callable" and sf.ngev != ngu:
+            bad.setdefault("C15.ngev_counts_gradient_computations", "step %d: ngev=%d, %d gradient calls made" % (step, sf.ngev, ngu))
+    for (ka, ra), (kb, rb) in zip(own_f, own_f[1:]):
+        if np.array_equal(calls["f"][ka], calls["f"][kb]) and all(np.array_equal(r, calls["f"][ka]) for r in requests[ra:rb + 1]):
+            bad.setdefault("C15.no_reevaluation_at_the_cached_point", "the objective was evaluated twice in a row at %s" % (calls["f"][ka].tolist(),))
+    return dict(violated=bad, nfev=int(sf.nfev), ngev=int(sf.ngev))
